@@ -191,7 +191,7 @@ func main() {
 			var ks []string
 			ast.Inspect(fd.Body, func(n ast.Node) bool {
 				if kv, ok := n.(*ast.KeyValueExpr); ok && strings.HasPrefix(f.Render(kv.Key), "seq.TokenizerType") {
-					ks = append(ks, strings.TrimPrefix(f.Render(kv.Key), "seq.")+"="+f.Render(kv.Value.(*ast.CallExpr).Fun))
+					ks = append(ks, strings.TrimPrefix(f.Render(kv.Key), "seq.")+"="+f.Render(kv.Value))
 				}
 				return true
 			})
